@@ -51,10 +51,11 @@ Proof.
   - intros H. inversion H; subst v1 e1. exact G.
   - destruct (large_mul c L v (LARGE_POW5 T)) as [v'|] eqn:Em; [|discriminate].
     assert (P5 : 0 < 5 ^ LARGE_POW5_STEP T) by (apply Z.pow_pos_nonneg; lia).
-    assert (XX: 0 < lval (LARGE_POW5 T)). Fail lia. rewrite HV. Fail lia. exact P5.
+    assert (PL : 0 < lval (LARGE_POW5 T)) by lia.
+    pose proof (large_mul_pres v (LARGE_POW5 T) v' G Hp HL PL Em) as G'.
     apply large_mul_spec in Em; try assumption; [|apply G|left; apply lval_pos_nonempty; exact Hp].
     destruct Em as [V _].
-    intros H. eapply IH; try eassumption; [rewrite V, HV; apply Z.mul_pos_pos; assumption|lia].
+    intros H. apply (IH v' (e - LARGE_POW5_STEP T) v1 e1); try assumption; [rewrite V, HV; apply Z.mul_pos_pos; assumption|lia].
   - intros H. inversion H; subst v1 e1. exact G.
 Qed.
 
@@ -70,7 +71,7 @@ Proof.
     assert (P5 : 0 < max_native5 < B64) by (split; vm_compute; reflexivity).
     pose proof (small_mul_pres c L v _ v' G P5 Em) as G'.
     apply small_mul_spec in Em; [|apply G|lia]. destruct Em as [V _].
-    intros H. eapply IH; try eassumption; [rewrite V; apply Z.mul_pos_pos; lia|unfold small_step in *; lia].
+    intros H. apply (IH v' (e - small_step) v1 e1); try assumption; [rewrite V; apply Z.mul_pos_pos; lia|unfold small_step in *; lia].
   - intros H. inversion H; subst v1 e1. exact G.
 Qed.
 
